@@ -156,9 +156,16 @@ struct list_machine
     }
     case 3:
     {
-      if (live_e.size() < 2) break;
+      if (live_e.empty()) break;
       std::size_t const s = live_e[x % live_e.size()], d = live_e[y % live_e.size()];
-      if (s == d) break;
+      if (s == d)
+      {
+        // self-move-assignment is explicitly handled by the implementation: nothing changes
+        elem &self = *elems[d];
+        *elems[d] = std::move(self);
+        cls("self-move-assign-element");
+        break;
+      }
       if (self_linked[s] && known("intrusive::base|move-from-self-linked")) break;
       cls(self_linked[s] ? "move-assign-from-unlinked" : "move-assign-from-linked");
       *elems[d] = std::move(*elems[s]);
@@ -191,9 +198,15 @@ struct list_machine
     }
     case 6:
     {
-      if (live_l.size() < 2) break;
+      if (live_l.empty()) break;
       std::size_t const s = live_l[x % live_l.size()], d = live_l[y % live_l.size()];
-      if (s == d) break;
+      if (s == d)
+      {
+        elist &self = *lists[d];
+        *lists[d] = std::move(self);
+        cls("self-move-assign-list");
+        break;
+      }
       if (model[s].empty() && !model[d].empty() && known("intrusive::list|move-assign-from-empty")) break;
       cls(model[s].empty() ? (model[d].empty() ? "assign empty->empty" : "assign empty->non-empty") : (model[d].empty() ? "assign non-empty->empty" : "assign non-empty->non-empty"));
       if (model[d].size() >= 2)
